@@ -143,6 +143,7 @@ pub const DEFAULTABLE: &[FieldTy] = &[
     FieldTy::U8,
     FieldTy::I32,
     FieldTy::U64,
+    FieldTy::Usize,
     FieldTy::Bool,
     FieldTy::Char,
     FieldTy::Str,
@@ -486,7 +487,7 @@ fn placeholder_lit(rg: &mut Rg, kind: Kind, fields: &[FieldSpec]) -> String {
     for &i in &order {
         let f = &fields[i];
         let sp = match f.ty {
-            FieldTy::U8 | FieldTy::I32 | FieldTy::U64 => *rg.pick(&specs_num),
+            FieldTy::U8 | FieldTy::I32 | FieldTy::U64 | FieldTy::Usize => *rg.pick(&specs_num),
             FieldTy::Str | FieldTy::StaticStr => *rg.pick(&specs_str),
             FieldTy::Bool | FieldTy::Char => *rg.pick(&["", ":>4", ":<6", ":^5", ":?"]),
             _ => *rg.pick(&specs_generic),
@@ -502,6 +503,19 @@ fn placeholder_lit(rg: &mut Rg, kind: Kind, fields: &[FieldSpec]) -> String {
             sp.to_string()
         };
         let arg = if kind == Kind::Named { f.name.clone().unwrap() } else { format!("{}", i) };
+        // the width taken from ANOTHER field (`{label:>width$}`, `{0:>1$}`): that field need not be printed itself
+        let width_from = (0..fields.len()).find(|&w| w != i && fields[w].ty == FieldTy::Usize);
+        let sp = match width_from {
+            Some(w) if !sp.contains('?') && !sp.contains('#') && rg.chance(1, 2) => {
+                let wn = if kind == Kind::Named { fields[w].name.clone().unwrap() } else { format!("{}", w) };
+                if wn.starts_with("r#") {
+                    sp
+                } else {
+                    format!(":>{}$", wn)
+                }
+            }
+            _ => sp,
+        };
         let trailing_ws = if rg.chance(1, 8) && sp.is_empty() { " " } else { "" };
         s.push_str(&format!("{{{}{}{}}}", arg, trailing_ws, sp));
         s.push_str(*rg.pick(&texts[..]));
@@ -769,13 +783,19 @@ pub fn gen_string(rg: &mut Rg, cfg: &GenCfg) -> EnumSpec {
             let i = cand[rg.below(cand.len() - 1)];
             let j = *cand.iter().find(|&&x| x > i).unwrap();
             let base = format!("{}{}", rg.pick(&["mb", "kib", "rgb", "id"]), i);
+            let enum_ci = e.eattrs().any(|a| matches!(a, EAttr::Ci));
             for (at, name) in [(i, base.clone()), (j, base.to_ascii_uppercase())] {
                 let v = &mut e.variants[at];
                 for g in v.groups.iter_mut() {
                     g.retain(|a| !matches!(a, VAttr::Serialize(_) | VAttr::ToString(_) | VAttr::Ci(_)));
                 }
                 v.groups.retain(|g| !g.is_empty());
-                v.groups.push(vec![VAttr::Serialize(name), VAttr::Ci(Some(false))]);
+                // (no flag of their own unless the enum-level one has to be switched off)
+                if enum_ci {
+                    v.groups.push(vec![VAttr::Serialize(name), VAttr::Ci(Some(false))]);
+                } else {
+                    v.groups.push(vec![VAttr::Serialize(name)]);
+                }
             }
             // some earlier variant carries the flag
             let k = rg.below(i);
